@@ -772,6 +772,10 @@ var (
 	verifCancel     context.CancelFunc
 	verifFaults     int
 	verifPageSize   = 100
+	// width accounting: subject sets the engine went on to expand (calls of
+	// CheckAndAddVisited) vs. what the traversal results allow under max-width
+	verifVisitedCalls    int
+	verifExpandAllowance int
 	verifVisitedSkips int // subject sets skipped because already in the visited set
 )
 
